@@ -48,7 +48,9 @@ RULE = ('history = up to 6 constant definitions (gin.constant over modules {a,b,
         '`include` statements placed anywhere in the texts (file 1 may include file 0), so files '
         'are included repeatedly, in diamonds and across parse calls, with re-bindings in '
         'between; gin.query_parameter on a macro (%name, name/macro.value, name/gin.macro.value) '
-        'after a text and on every macro of the case before finalize; `with gin.config.'
+        'after a text and on every macro of the case before finalize; before a third of the texts '
+        'a macro is bound under a constant name / suffix (config line or bind_parameter) and '
+        '%name is then parsed and must still be the constant (or the ambiguity error); `with gin.config.'
         'interactive_mode():` blocks (left by an exception of the body, by a rejected gin.constant '
         'or by a rejected ambiguous parse inside; or completed) among the constant definitions and '
         'after texts, each followed outside the block by definitions duplicating an existing '
@@ -90,6 +92,10 @@ ASSUMPTIONS = [
     'constants_from_enum makes one constant per name of the enum, aliases included '
     '(module.Class.ALIAS yields the member it is another name of); alias names never repeat a '
     'member name',
+    'a macro bound (by a value-less config line or bind_parameter("%name", v)) under a name that '
+    'is a constant\'s name or abbreviation does not change what %name means: the constant, or an '
+    'error when the abbreviation is ambiguous; such macros get plain literal values and are '
+    'never expected to be delivered',
     'an include statement is in-place inclusion every time it is executed, however often the '
     'same file was included before',
     'gin.clear_config() (default clear_constants=False, documented to keep constants) empties '
@@ -128,7 +134,9 @@ FLOORS = {'nontrivial': (0.3, _H), 'nt:use-before-def': (0.15, _H),
           'lock:rebound-under-unlock-rechecked': (0.02, _H),
           'use:several-reference-keys-checked': (0.05, _H),
           'finalize:counter-macros-not-evaluated': (0.1, _H),
-          'const:enum-with-alias': (0.05, _H), 'const:enum-alias-checked': (0.03, _H)}
+          'const:enum-with-alias': (0.05, _H), 'const:enum-alias-checked': (0.03, _H),
+          'shadow:constant-used-under-macro-name': (0.08, _H),
+          'shadow:ambiguous-still-rejected': (0.01, _H)}
 TECHNIQUE = ('model-based property testing: Hypothesis-generated parse/define/use histories against '
              'a last-writer-wins reference map, identity checks for constants, plus an exhaustive '
              'sweep of ordered constant-name pairs')
@@ -295,6 +303,11 @@ def _parse_op(draw):
           'query': draw(st.none() | st.tuples(_small, st.integers(0, 2)).map(list)),
           # an interactive_mode block left by an exception, then duplicate definitions outside
           'iblock': draw(st.none() | st.none() | st.none() | _iblock_st),
+          # before this text: bind a MACRO whose name is a constant's name or abbreviation
+          # [which query, literal value, 0 = value-less config line / 1 = bind_parameter]
+          'shadow': draw(st.none() | st.none() |
+                         st.tuples(st.integers(0, 30), st.integers(0, 999),
+                                   st.integers(0, 1)).map(list)),
           'ambig': draw(st.none() | st.none() | st.tuples(_small, st.integers(0, 2)).map(list))}
 
 
@@ -786,6 +799,46 @@ def _iblock(model, labels, how, idx):
                     f'not the object defined as {n!r}')
 
 
+def _shadow(model, labels, spec, k, ambiguous_rejected):
+  """Binds a macro under a name that (also) designates constants, then parses a use of that
+  name: a '%name' that matches a constant is the constant, whatever macros exist."""
+  oks = model.ok_queries()
+  ambs = model.ambiguous_queries()
+  pool = [q for q, _ in oks] + ambs
+  if not pool:
+    return ambiguous_rejected
+  name = pool[spec[0] % len(pool)]
+  with _unlocked(model):
+    if spec[2] % 2 == 0 and '.' not in name:
+      gin.parse_config(f'{name} = {spec[1]}\n')
+      labels.add('shadow:macro-by-config-line')
+    else:
+      gin.bind_parameter('%' + name, spec[1])
+      labels.add('shadow:macro-by-bind_parameter')
+  text = f'{PROBES[2]}.c = [%{name}]\n'
+  if name in ambs:
+    try:
+      with _unlocked(model):
+        try:
+          gin.parse_config(text)
+        except ValueError:
+          raise
+    except ValueError:
+      labels.add('shadow:ambiguous-still-rejected')
+      labels.add('const:ambiguous-rejected')
+      return ambiguous_rejected + 1
+    raise Violation('ambiguous-constant-accepted',
+                    f'after a macro was bound under the name {name!r}, `{text.strip()}` parsed '
+                    f'although %{name} matches {c_match(sorted(model.consts), name)}')
+  n = dict(oks)[name]
+  with _unlocked(model):
+    gin.parse_config(text)
+  model.pos += 1
+  model.binds[(2, 'c')] = ('list', [('const', name, n)])
+  labels.add('shadow:constant-used-under-macro-name')
+  return ambiguous_rejected
+
+
 def _unlocked(model):
   """Texts parsed after a successful finalize go through the documented unlock_config()."""
   return gin.unlock_config() if model.locked else contextlib.nullcontext()
@@ -1218,6 +1271,8 @@ def check_case(case):
     for k, op in enumerate(parses):
       for _ in range(op.get('clear', 0) or 0):
         _clear(model, labels, flags)
+      if op.get('shadow') is not None:
+        ambiguous_rejected = _shadow(model, labels, op['shadow'], k, ambiguous_rejected)
       lines, concs = [], []
       for stmt in op['stmts']:
         for prim in expand(stmt, None):
